@@ -44,6 +44,28 @@ Proof.
   exists leak, (fun _ => 0), (fun _ => 0), (fun _ => 1). cbn. discriminate.
 Qed.
 
+(* A guarded draw: no value of the global stream reaches the output, every emitted value comes from the seeded stream - and still the
+   proposals are not a function of the seed: the ambient bit moves the position of the seeded stream. *)
+Lemma guarded_refuted : exists sd g g',
+  run (guarded propose_next) sd g 0 0 <> run (guarded propose_next) sd g' 0 0 /\
+  seeded_used (guarded propose_next) sd g 0 0 <> seeded_used (guarded propose_next) sd g' 0 0 /\
+  (forall v, In v (run (guarded propose_next) sd g 0 0) -> exists i, v = sd i) /\
+  (forall v, In v (run (guarded propose_next) sd g' 0 0) -> exists i, v = sd i).
+Proof.
+  exists (fun i => Z.of_nat i), (fun _ => 0), (fun _ => 1). cbn. repeat split.
+  - discriminate.
+  - discriminate.
+  - intros v [H|[]]. exists 0%nat. symmetry. exact H.
+  - intros v [H|[]]. exists 1%nat. symmetry. exact H.
+Qed.
+
+(* without the guard (the same draws, unconditionally) the run is a function of the seeded stream alone *)
+Lemma unguarded_deterministic : forall rest, no_global rest -> forall sd g g' i j j',
+  run (Draw SSeeded (fun _ => rest)) sd g i j = run (Draw SSeeded (fun _ => rest)) sd g' i j'.
+Proof.
+  intros rest H sd g g' i j j'. apply run_no_global. cbn [no_global]. intros _. exact H.
+Qed.
+
 (* "different seeds give different sequences" cannot hold for every program (a program may ignore its draws); it holds for the
    programs that emit an injective function of a draw on which the two seeded streams differ *)
 Lemma seed_sensitive : forall (out : list Z -> Z) sd sd' g,
